@@ -17,6 +17,8 @@ def run(chk):
     c04.instance(chk, "odd", "odd", 2 if thorough else 58, 63, ab, base="N", only=ABORT)
     c04.instance(chk, "odd-nn", "odd", 2 if thorough else 30, 63 if thorough else 33, ab, base="NN", only=ABORT)
     c04.instance(chk, "uniform", "uniform", 1, 63, ["AN", "NA"] + (["A", "AS"] if thorough else []), only=ABORT)
+    from . import c08
+    c08.redispatch(chk, ABORT)
     chk.exhaustive = True
     c04.recorded(chk, 2000 if thorough else 300, ABORT)
     # beyond the sentinel: registration accepts the chain (global middleware is not counted), Abort no longer stops it
